@@ -103,6 +103,9 @@ func SizeClasses(cfg Config, r *payload.SplitMix) int {
 // GenClean builds an RPC in which neither side aborts.
 func GenClean(r *payload.SplitMix, tag uint64, cfg Config) *Script {
 	s := &Script{Tag: tag, Clean: true}
+	if r.Intn(3) == 0 {
+		s.Meta = map[string]string{"rpc": fmt.Sprint(tag), fmt.Sprintf("k%d", tag): "v"}
+	}
 	sz := func() int {
 		n := SizeClasses(cfg, r)
 		if cfg.Client.Stream.SplitSize > 0 && cfg.Client.Stream.SplitSize < 8 && n > 3000 {
@@ -170,6 +173,15 @@ func GenAbort(r *payload.SplitMix, tag uint64, cfg Config, kind string) *Script 
 		case "handler-early-return":
 			p := r.Intn(len(s.Handler) + 1)
 			s.Handler = append([]Act{}, s.Handler[:p]...)
+			if !s.Unary && r.Intn(2) == 0 {
+				// the client half-closes only after the server's own half-close has arrived
+				for i, a := range s.Client {
+					if a.Op == 'h' {
+						s.Client = append(append(append([]Act{}, s.Client[:i]...), Act{Op: 'q'}), s.Client[i:]...)
+						break
+					}
+				}
+			}
 		case "client-early-close-after-half":
 			if s.Unary {
 				s.Unary = false
